@@ -85,6 +85,9 @@ def tasks(tier, seed):
                     "caps": {"max_seconds": 300, "solver_timeout_ms": 120000}})
     for b in [4, 8] if tier == "quick" else [4, 6, 8, 12]:
         out.append({"fn": "sar_noise", "kwargs": {"bits": b}, "label": f"sar_noise/zero_noise/bits={b}"})
+    for b, vm in ([(4, 3.3), (6, 0.7)] if tier == "quick" else [(4, 3.3), (6, 0.7), (8, 1.8), (10, 0.2048), (12, 3.3), (8, 5.0)]):
+        out.append({"fn": "sar_noise_fp", "kwargs": {"bits": b, "vmax": vm}, "label": f"sar_noise/zero_noise/fp,bits={b},vmax={vm}", "solver": "cvc5", "cross_check": False,
+                    "caps": {"max_seconds": 400, "solver_timeout_ms": 120000}})
     for b in [4] if tier == "quick" else [4, 6, 8]:
         out.append({"fn": "sar_fp", "kwargs": {"bits": b, "vmax": 5.0}, "label": f"sar/fp/bits={b}", "solver": "cvc5", "cross_check": False,
                     "caps": {"max_seconds": 400, "solver_timeout_ms": 120000}})
@@ -294,6 +297,27 @@ def sar_noise(bits):
     vx.prove(f"C16/sar_noise/zero_noise_equiv/bits={bits}", vx.all_of([u == v for u, v in zip(a.elems(), b.elems())]) & (a.dtype == b.dtype))
 
 
+def sar_noise_fp(bits, vmax):
+    """Exact IEEE-754: the noisy variant with all strengths and noises zero produces the very same code as sar_adc, for every
+    finite double (the statement says "exactly" - rounding of intermediate results is part of it)."""
+    mods = _mods()
+    sar, sarn = mods[1], mods[2]
+    x = vx.fp("x")
+    vx.assume(~x.isnan(), "input voltage is not NaN")
+    core.FP_EVENTS.clear()
+    with Patch() as p:
+        p.numpy(ADC_MODS[1], ADC_MODS[2], ADC_MODS[3])
+        import types
+
+        shim = types.ModuleType("symnp_zero_noise")
+        shim.__getattr__ = lambda name: _ZeroNoiseRandom if name == "random" else getattr(symnp, name)  # type: ignore[attr-defined]
+        p.attr(sarn, "np", shim, "np.random.normal(loc, 0) == loc")
+        a = sar.apply_sar_adc(signal_2d=symnp.SymArray.from_elems([x], (1, 1), np.float64), num_rows=1, num_cols=1, min_volt=0.0, max_volt=vmax, adc_bits=bits)
+        b = sarn.apply_sar_adc_with_noise(signal_2d=symnp.SymArray.from_elems([x], (1, 1), np.float64), num_rows=1, num_cols=1,
+                                          strengths=np.zeros(bits), noises=np.zeros(bits), max_volt=vmax, adc_bits=bits)
+    vx.prove(f"C16/sar_noise/zero_noise_equiv/fp,bits={bits},vmax={vmax}", (a.elems()[0] == b.elems()[0]) & (a.dtype == b.dtype))
+
+
 # ------------------------------------------------------------------------------------------------
 def _f(v):
     return float(v) if v is not None else 0.0
@@ -352,6 +376,11 @@ def replay(oid, kwargs, model, data):
         if clause == "zero":
             return (x <= 0 and cx != 0), det
         return False, det
+    if fn == "sar_noise_fp":
+        bits, vmax, x = kwargs["bits"], kwargs["vmax"], _f(model.get("x"))
+        a = apply_sar_adc(np.array([[x]], dtype=float), 1, 1, 0.0, vmax, bits)
+        b = apply_sar_adc_with_noise(np.array([[x]], dtype=float), 1, 1, np.zeros(bits), np.zeros(bits), vmax, bits)
+        return (not np.array_equal(a, b) or a.dtype != b.dtype), {"x": x.hex(), "sar": a.tolist(), "noisy_with_zero_noise": b.tolist()}
     if fn == "sar_noise":
         bits = kwargs["bits"]
         vmax, x, y = _f(model.get("vmax")), _f(model.get("x")), _f(model.get("y"))
